@@ -61,10 +61,24 @@ def check(ctx):
             for kwd in node.keywords:
                 if kwd.arg == 'env':
                     found = True
+                    origin = src.get(txt(kwd.value))
+                    if isinstance(kwd.value, ast.Call):
+                        origin = call_name(kwd.value)
+                    # read_env: holds; a fresh environment or none at all:
+                    # violated; bound in a way this rule does not read (a
+                    # context manager, another loader): undecided
+                    fresh = origin in ('Env', 'dict', 'copy') or (
+                        isinstance(kwd.value, ast.Constant)) or (
+                            isinstance(kwd.value, ast.Name) and not any(
+                                isinstance(n, ast.Name) and
+                                n.id == kwd.value.id and
+                                isinstance(n.ctx, ast.Store)
+                                for n in walk_local(func.node)))
                     ctx.decide('RUN-PATH', func,
                                f'schedule(env={txt(kwd.value)}) comes from '
                                f'read_env',
-                               src.get(txt(kwd.value)) == 'read_env',
+                               True if origin == 'read_env' else
+                               False if fresh else None,
                                at=func.where(node))
     ctx.floor('RUN-PATH', int(found), 1, 'schedule(env=...) in the run '
               'command')
